@@ -9,8 +9,11 @@ import time
 VERIF = os.path.dirname(os.path.dirname(os.path.dirname(os.path.abspath(__file__))))
 REPO = os.environ.get("VERIF_REPO_ROOT", "/repo")
 SPECS = os.path.join(VERIF, "specs")
-EVIDENCE = os.path.join(VERIF, "evidence")
-REPLAYS = os.path.join(VERIF, "replays")
+# VERIF_OUT_DIR: where evidence and replay files go (tools/try_seed.sh points it at a scratch directory, so that runs
+# against a deliberately broken tree never overwrite the evidence of the real one)
+_OUT = os.environ.get("VERIF_OUT_DIR") or VERIF
+EVIDENCE = os.path.join(_OUT, "evidence")
+REPLAYS = os.path.join(_OUT, "replays")
 ENGINE_SRC = os.path.join(REPO, "src/strengths/engines/strengths_engine/src")
 NCPU = os.cpu_count() or 4
 
